@@ -123,9 +123,18 @@ impl ConnectionState {
         &mut self,
         inner: &mut Inner,
         reply_code: AMQPHardError,
-        reply_text: String,
+        mut reply_text: String,
     ) -> Result<()> {
         error!("{} - closing connection", reply_text);
+        // reply-text is an AMQP short string; anything longer than 255 bytes would be
+        // serialized with a wrapped length byte, corrupting the Close method.
+        if reply_text.len() > 255 {
+            let mut end = 255;
+            while !reply_text.is_char_boundary(end) {
+                end -= 1;
+            }
+            reply_text.truncate(end);
+        }
         let close = ConnectionClose {
             reply_code: reply_code.get_id(),
             reply_text,
